@@ -20,13 +20,21 @@ from vf.runner import Check, Result, exc_sig
 
 CAND = [(g, ts) for g in ('a', 'b') for ts in (None, 1, 2, 3, 4)]
 CONDS = [('none', None), ('gt', '>'), ('ge', '>='), ('eq', '='), ('lt', '<'), ('le', '<='), ('between', 'between'), ('gt_latest', '> LATEST'), ('eq_latest', '= LATEST')]
-PARTS = [('none', None), ('eq', "t.g = 'a'"), ('in', "t.g IN ('a', 'b')")]
+PARTS = [('none', None), ('eq', "t.g = 'a'"), ('in', "t.g IN ('a', 'b')"), ('two', "t.g = 'a' AND t.h = 'x'")]
+# arrangements of the conjuncts of WHERE (T = time condition, P / Q = partition filters): order, nesting and parentheses of the AND tree
+LAYOUTS = [('time_first', '{T} AND {P}'), ('part_first', '{P} AND {T}'), ('time_in_parens', '{P} AND ({T})'), ('all_in_parens', '({T} AND {P})'),
+           ('right_nested', '{P} AND ({Q} AND {T})'), ('right_nested_time_first', '{P} AND ({T} AND {Q})'), ('time_middle', '{P} AND {T} AND {Q}'),
+           ('left_nested_parens', '(({P} AND {T}) AND {Q})'), ('deep_right', '{P} AND ({Q} AND ({T}))')]
 REJECTED = [('order_by', ' ORDER BY t.ts'), ('group_by', ' GROUP BY t.g'), ('having', ' GROUP BY t.g HAVING count(*) > 1'), ('offset', ' LIMIT 2 OFFSET 1'),
             ('other_column', None), ('two_time_filters', None),
             # a filter on another column, hidden in a function call / arithmetic / on the right-hand side / under NOT / in a list
             ('other_column_func', 'abs(t.v) > 5'), ('other_column_coalesce', 'coalesce(t.v, 0) = 1'), ('other_column_rhs', "t.g = upper(t.h)"),
             ('other_column_arith', 't.v + 1 > 5'), ('other_column_not', 'NOT t.v = 1'), ('other_column_in', 't.v IN (1, 2)'), ('other_column_between', 't.v BETWEEN 1 AND 2'),
             ('other_column_isnull', 't.v IS NULL'), ('other_column_const_first', '1 = t.v'), ('other_column_or_time', 't.v = 1 OR t.ts > 2')]
+
+
+INNER_REJECTED = [' ORDER BY t.ts', ' ORDER BY t.ts DESC', ' GROUP BY t.g', ' GROUP BY t.g HAVING count(*) > 1', ' LIMIT 2 OFFSET 1', ' AND t.v = 1', ' AND abs(t.v) > 1',
+                  ' ORDER BY t.v', ' GROUP BY t.g, t.h', ' LIMIT 5 OFFSET 0']
 
 
 def hval(g, ts):
@@ -55,8 +63,15 @@ def cond_sql(cl, thr):
     return f't.ts {dict(CONDS)[cl]} {thr}'
 
 
-def build(cl, thr, pl, window, ng, side, lim, rej=None):
+def build(cl, thr, pl, window, ng, side, lim, rej=None, layout=None):
     conds = [c for c in (cond_sql(cl, thr), dict(PARTS)[pl]) if c]
+    if layout is not None:
+        T = cond_sql(cl, thr)
+        P, Q = ("t.g = 'a'", "t.h = 'x'") if pl == 'two' else (dict(PARTS)[pl], None)
+        tpl = dict(LAYOUTS)[layout]
+        if T is None or P is None or ('{Q}' in tpl) != (Q is not None):
+            return None
+        conds = [tpl.format(T=T, P=P, Q=Q)]
     tail = ''
     if rej == 'other_column':
         conds.append('t.v = 1')
@@ -78,6 +93,8 @@ def expected(rows, cl, thr, pl, window, ng):
         rows = [r for r in rows if r[0] == 'a']
     elif pl == 'in':
         rows = [r for r in rows if r[0] in ('a', 'b')]
+    elif pl == 'two':
+        rows = [r for r in rows if r[0] == 'a' and r[1] == 'x']
     keyf = (lambda r: ()) if ng == 0 else (lambda r: (r[0],)) if ng == 1 else (lambda r: (r[0], r[1]))
     parts = collections.defaultdict(list)
     for r in rows:
@@ -149,14 +166,25 @@ class CHECK(Check):
         out = []
         thrs = (2, 3) if self.tier == 'thorough' else (2,)
         for (cl, _), thr, (pl, _), window, ng, side, lim in itertools.product(CONDS, thrs, PARTS, (1, 2), (0, 1, 2), ('right', 'left'), (None, 1)):
-            if pl != 'none' and ng == 0:
+            if (pl != 'none' and ng == 0) or (pl == 'two' and ng != 2):
                 continue
             if cl in ('none', 'gt_latest', 'eq_latest') and thr != thrs[0]:
                 continue
             out.append(('ok', cl, thr, pl, window, ng, side, lim, None))
+        # the same conjuncts arranged as other AND trees (order, nesting, parentheses)
+        for (cl, _), (pl, _), (layout, _), ng in itertools.product(CONDS, PARTS, LAYOUTS, (1, 2)):
+            if (pl == 'two' and ng != 2) or build(cl, thrs[0], pl, 2, ng, 'right', None, None, layout) is None:
+                continue
+            for window in (1, 2):
+                out.append(('ok_layout:' + layout, cl, thrs[0], pl, window, ng, 'right', None, None))
+        # clauses the planner has to refuse, written inside a data sub-select (the dbt shape)
+        for clause in INNER_REJECTED:
+            for alias in ('t', 'q'):
+                for ng in (0, 1):
+                    out.append(('rejected_inner', clause, alias, 'none', 2, ng, 'right', None, None))
         # the order / partition columns spelled with capitals in the statement (the model metadata keeps lower case)
         for (cl, _), (pl, _), ng, side in itertools.product(CONDS, PARTS, (0, 1), ('right', 'left')):
-            if pl != 'none' and ng == 0:
+            if (pl != 'none' and ng == 0) or pl == 'two':
                 continue
             out.append(('ok_upper', cl, thrs[0], pl, 2, ng, side, None, None))
         # the data side is a sub-select with a LIMIT of its own (the shape dbt generates) and the statement has a LIMIT too
@@ -200,6 +228,32 @@ class CHECK(Check):
                               f'{sql!r}: limit steps after the model: {vals}; the statement asks for LIMIT {outer}\n    {steps}')
         return res
 
+    def run_rejected_inner(self, res, case):
+        kind, clause, alias, pl, window, ng, side, lim, rej = case
+        sql = f'SELECT * FROM (SELECT * FROM int1.tt AS t WHERE t.ts > 2{clause}) AS {alias} JOIN mindsdb.tp'
+        res.key(case)
+        out = parsing.outcome(sql, 'mindsdb')
+        if out.kind != 'ok':
+            res.count('inner_clause_not_parsed')
+            return res
+        try:
+            plan = plan_query(out.value, **predq.ts_catalog(window, ng))
+        except PlanningException:
+            res.count('rejected_as_required')
+            return res
+        except NotImplementedError:
+            res.count('not_implemented')
+            return res
+        except Exception:
+            res.count('internal_error_(C09)')
+            return res
+        # planned: the clause must then really be carried out by some step (it may not be dropped silently)
+        word = clause.split()[0] + (' ' + clause.split()[1] if clause.split()[0] in ('ORDER', 'GROUP') else '')
+        kept = any(word.lower() in str(getattr(st, 'query', '') or '').lower().replace('order by ts', '') for st in plan.steps) if word != 'AND' else any('v' in [str(i.parts[-1]) for i, _ in reflect.walk(getattr(st, 'query', None), want=lambda o: isinstance(o, A.Identifier))] for st in plan.steps)
+        if not kept:
+            res.violation(f'unsupported-clause-in-data-sub-select-dropped|{clause.split()[0]}|groups={ng}', f'{sql!r} [groups={ng}] is planned and the clause{clause!r} is in no step: {plan.steps}')
+        return res
+
     def ensure(self):
         if self.cons is None:
             self.cons = []
@@ -217,7 +271,10 @@ class CHECK(Check):
         kind, cl, thr, pl, window, ng, side, lim, rej = case
         if kind == 'dbt':
             return self.run_dbt(res, case)
-        sql = build(cl, thr, pl, window, ng, side, lim, rej)
+        if kind == 'rejected_inner':
+            return self.run_rejected_inner(res, case)
+        layout = kind.split(':')[1] if kind.startswith('ok_layout:') else None
+        sql = build(cl, thr, pl, window, ng, side, lim, rej, layout)
         if kind == 'ok_upper':
             sql = sql.replace('t.ts', 't.TS').replace('t.g', 't.G')
         res.key(case)
@@ -310,14 +367,16 @@ class CHECK(Check):
     def coverage(self, agg):
         return {'exhaustive': True, 'table_contents': len(self.dbs), 'conditions': [c[0] for c in CONDS], 'partition_filters': [p[0] for p in PARTS],
                 'rejected_shapes': [r[0] for r in REJECTED],
-                'rule': 'full product condition x threshold x partition filter x window {1,2} x group columns {0,1,2} x model side x LIMIT, + rejected shapes; every plan '
+                'rule': 'full product condition x threshold x partition filter x window {1,2} x group columns {0,1,2} x model side x LIMIT, + 9 arrangements of the WHERE conjuncts as AND trees, + rejected shapes (also inside a data sub-select); every plan '
                         'interpreted on every table content with <= 3 (thorough 4) rows over 2 partitions x 5 time values; distinct_nontrivial = distinct cases'}
 
     def describe_case(self, case):
         kind, cl, thr, pl, window, ng, side, lim, rej = case
         if kind == 'dbt':
             return {'kind': kind, 'inner_limit': thr, 'outer_limit': lim, 'group_columns': ng}
-        sql = build(cl, thr, pl, window, ng, side, lim, rej)
+        if kind == 'rejected_inner':
+            return {'kind': kind, 'sql': f'SELECT * FROM (SELECT * FROM int1.tt AS t WHERE t.ts > 2{cl}) AS {thr} JOIN mindsdb.tp', 'group_columns': ng}
+        sql = build(cl, thr, pl, window, ng, side, lim, rej, kind.split(':')[1] if kind.startswith('ok_layout:') else None)
         if kind == 'ok_upper':
             sql = sql.replace('t.ts', 't.TS').replace('t.g', 't.G')
         return {'kind': kind, 'sql': sql, 'window': window, 'group_columns': ng}
